@@ -125,6 +125,13 @@ def check_imposed(ctx, case):
                     x.config.op_out_like = T
                 x.config.op_method = method
                 return do_operator(op, x, y), T
+            if case.get('route') == 'config-array':
+                # the numpy function form, with the target taken from the configuration of the first operand
+                if variant == 'out':
+                    x.config.array_op_out = T
+                else:
+                    x.config.array_op_out_like = T
+                return {'add': np.add, 'sub': np.subtract, 'mul': np.multiply}[op](x, y), T
             return opfun(op)(x, y, method=method, **{variant: T}), T
     else:
         raise ValueError(variant)
@@ -286,7 +293,7 @@ def st_case(draw):
     else:
         case['ft'] = list(draw(st.sampled_from(fl + fmts_c08(20, 13))))
         case['mt'] = list(draw(C.st_modes()))
-        case['route'] = draw(st.sampled_from(['kwarg', 'config']))
+        case['route'] = draw(st.sampled_from(['kwarg', 'config', 'config-array']))
         case['dirty'] = draw(st.booleans())
     return case
 
